@@ -2585,7 +2585,9 @@ class VirtualArrayType(ContentType):
         return virtualarray
 
     def hasfield(self, key):
-        return self.generator_form.haskey(key)
+        return ak._connect._numba.arrayview.tonumbatype(self.generator_form).hasfield(
+            key
+        )
 
     def getitem_at(self, viewtype):
         def getitem_at(form):
